@@ -802,8 +802,9 @@ class Unit:
     def __init__(self, name, specs=(), uses=()):
         self.name = name
         self.specs = list(specs)
-        if 'std_from_int.rs' not in self.specs:
-            self.specs.append('std_from_int.rs')
+        for sp_ in ('std_from_int.rs', 'std_int_methods.rs'):
+            if sp_ not in self.specs:
+                self.specs.append(sp_)
         self.uses = list(uses)
         self.entries = []
         self.crate_traits = set()
